@@ -8,6 +8,8 @@ open Zutil
 
 let zi s = z_of_int (int_of_string s)
 let b01 s = s = "1"
+(* the world id is <compiler> + 10 * <header version>; nelua's target-info probe only sees the compiler *)
+let ccinfo_of (w : z) : z = z_of_int (int_of_z w mod 10)
 let cc_ok (b : built) = let ((code, _), _) = b in int_of_z code < 900
 
 let parse_inv f =
@@ -50,7 +52,7 @@ let () =
         | p :: steps ->
           let pol = parse_pol p in
           let h = List.map parse_step steps in
-          let rep = exec_report h_id cc_ok pol tPS (init tPS) h in
+          let rep = exec_report h_id ccinfo_of cc_ok pol tPS (init tPS) h in
           String.concat " "
             (List.map
                (function
